@@ -57,6 +57,7 @@ func main() {
 		"arguments-left-alone oracle: byte-slice arguments are sub-slices of sentinel-filled arenas (payload lengths 0-40; spare capacity 0, 1, 3, 4, 5, 64, rest of arena), strings are substrings of larger strings; the arena must be unchanged, adjacent payloads and prefix-then-whole records must print and parse back exactly, returned slices must not be shared or change later, repeated calls must agree",
 		"routes stage: decorated spellings (white space, CR, NBSP, U+3000, U+0085, U+2003, zero-width space, NUL, BOM, case) of valid native strings through the real cmd/age and age-keygen by -r, -R/-i files, -R -/-i - with standard input a pipe and a terminal, and age-keygen -y; not demanded: the line format of key files (LF with one CR removed, empty and # lines skipped, the terminal's CR->LF); plugin strings are not run through the tool (no plugin binary)",
 		"sizes stage: plugin strings for payloads of 0-40, ~1 KiB, ~4 KiB, 5040-5130 (the string crosses 8192 characters), ~8 KiB, ~16 KiB, 64 KiB, 100 KiB (thorough: up to 1 MiB) bytes under a 1-, a 10- and a 60-character name go through Encode -> Parse -> plugin.NewRecipient / NewIdentity (.Name(), .Recipient().Name()); the tools' treatment of long plugin strings is recorded, not judged (documented line limit of -R files, no plugin binary)",
+		"combos stage: a spelling the library refuses (decorated, other case, prefix-only / payload-only case, KELVIN SIGN, LONG S, dotted/dotless I, one substituted or dropped character) next to the canonical spelling of the same key or another valid key, in 17 arrangements of repeated -r / --recipient, -R files, -i files for -d and -e -i; a byte-identical repeat is recorded, not judged",
 		"plugin names: exhaustive to length 2 (quick) / 3 (thorough) over the allowed set plus / \\ : space; payloads 0-64 bytes",
 	}
 	r.MinEvals, r.MinDistinct = 200000, 3000
@@ -92,6 +93,7 @@ func main() {
 	// the routes stage runs processes (mostly waiting): it gets workers of its
 	// own next to the CPU-bound jobs
 	routeJobs := jobsRoutes()
+	routeJobs = append(routeJobs, jobsCombos()...)
 	routesDone := make(chan float64, 1)
 	go func() {
 		t0 := time.Now()
@@ -130,6 +132,7 @@ func main() {
 	finishTail()
 	finishPurity()
 	finishSizes()
+	finishCombos()
 	finishRoutes()
 	flushViolations()
 	agg.publish(r)
